@@ -14,16 +14,16 @@ impl<T> RwLock<T> {
     pub fn into_inner(self) -> LockResult<T> { Ok(self.data.into_inner()) }
 }
 impl<T: ?Sized> RwLock<T> {
-    pub fn read(&self) -> LockResult<RwLockReadGuard<'_, T>> { assert!(self.state.get() >= 0, "read() would block forever (write-held)"); self.state.set(self.state.get() + 1); Ok(RwLockReadGuard { lock: self }) }
-    pub fn write(&self) -> LockResult<RwLockWriteGuard<'_, T>> { assert!(self.state.get() == 0, "write() would block forever (held)"); self.state.set(-1); Ok(RwLockWriteGuard { lock: self }) }
+    pub fn read(&self) -> LockResult<RwLockReadGuard<'_, T>> { assert!(self.state.get() >= 0, "read() would block forever (write-held)"); self.state.set(self.state.get() + 1); unsafe { G_READERS += 1; } Ok(RwLockReadGuard { lock: self }) }
+    pub fn write(&self) -> LockResult<RwLockWriteGuard<'_, T>> { assert!(self.state.get() == 0, "write() would block forever (held)"); self.state.set(-1); unsafe { G_WRITERS += 1; } Ok(RwLockWriteGuard { lock: self }) }
     pub fn get_mut(&mut self) -> LockResult<&mut T> { Ok(self.data.get_mut()) }
     pub fn readers(&self) -> isize { self.state.get() }
 }
 impl<T: ?Sized> Deref for RwLockReadGuard<'_, T> { type Target = T; fn deref(&self) -> &T { unsafe { &*self.lock.data.get() } } }
 impl<T: ?Sized> Deref for RwLockWriteGuard<'_, T> { type Target = T; fn deref(&self) -> &T { unsafe { &*self.lock.data.get() } } }
 impl<T: ?Sized> DerefMut for RwLockWriteGuard<'_, T> { fn deref_mut(&mut self) -> &mut T { unsafe { &mut *self.lock.data.get() } } }
-impl<T: ?Sized> Drop for RwLockReadGuard<'_, T> { fn drop(&mut self) { self.lock.state.set(self.lock.state.get() - 1); } }
-impl<T: ?Sized> Drop for RwLockWriteGuard<'_, T> { fn drop(&mut self) { self.lock.state.set(0); } }
+impl<T: ?Sized> Drop for RwLockReadGuard<'_, T> { fn drop(&mut self) { self.lock.state.set(self.lock.state.get() - 1); unsafe { G_READERS -= 1; } } }
+impl<T: ?Sized> Drop for RwLockWriteGuard<'_, T> { fn drop(&mut self) { self.lock.state.set(0); unsafe { G_WRITERS -= 1; } } }
 
 pub struct Mutex<T: ?Sized> { held: Cell<bool>, data: UnsafeCell<T> }
 unsafe impl<T: ?Sized + Send> Send for Mutex<T> {}
@@ -46,3 +46,7 @@ impl Condvar {
 }
 
 pub static mut NOTIFY_COUNT: usize = 0;
+
+// ghost lock state of the whole harness (entry-level harnesses have exactly one RwLock in play)
+pub static mut G_READERS: isize = 0;
+pub static mut G_WRITERS: isize = 0;
